@@ -260,6 +260,17 @@ Proof.
   repeat split; vm_compute; reflexivity.
 Qed.
 
+(* an EMPTY plaintext is compressed like any other when zip is present: the AEAD input is
+   compress [] (here the toy raw stream [1]), not [] *)
+Example c17_encrypt_empty_instance :
+  let ence := fun (m _ _ _ : bytes) => Ok (m, @nil N) in
+  let obj := {| em_plaintext := []; em_zip := Some "DEF"%string; em_ciphertext := []; em_tag := [] |} in
+  encrypt_tailL toy_comp ence None obj [] [] [] =
+  (Ok {| em_plaintext := []; em_zip := Some "DEF"%string; em_ciphertext := toy_raw []; em_tag := [] |},
+   [EvCompress []; EvEncrypt (compress toy_comp [])]) /\
+  compress toy_comp [] = [1] /\ compress toy_comp [] <> [].
+Proof. cbv zeta. split; [vm_compute; reflexivity|]. split; [vm_compute; reflexivity|]. vm_compute. discriminate. Qed.
+
 Print Assumptions c17_max_size_value.
 Print Assumptions c17_encrypt_leaves_plaintext.
 Print Assumptions c17_encrypt_again_same.
